@@ -289,7 +289,9 @@ def loop_rule(index, rep, rule="C08.LOOP", reloc_rule="C08.LOOP"):
             return orig(obj, key, node)
 
         it.getitem = getitem
-        obj = Obj(None, {"KCALS_GROWN": PList([]), "NO_RELOCATION_KCALS_GROWN": PList([]), "OG_KCAL_EXPONENT": e_}, "self")
+        ocls = index.cls(OC, "OutdoorCrops")     # helper methods the loop body calls are followed
+        it.classes = {"OutdoorCrops": ocls}
+        obj = Obj(ocls, {"KCALS_GROWN": PList([]), "NO_RELOCATION_KCALS_GROWN": PList([]), "OG_KCAL_EXPONENT": e_}, "self")
         env = {"self": obj, iv: Rat.atom(("i",))}
         it.exec_block([s_ for s_ in loop.body if not isinstance(s_, ast.Assert)], env)
         it.last_env = env
@@ -409,17 +411,48 @@ def form_crops(index, rep):
 
 
 def produced_var(fn):
-    """name of the local that carries the produced series into the Food(...) construction of set_crop_production_minus_greenhouse_area"""
+    """name of the local that carries the produced series into the Food(...) construction of set_crop_production_minus_greenhouse_area:
+    followed back from the kcals field through plain single definitions to the one name that is assigned on several paths, filled by slice
+    stores, or returned by a helper method"""
     params = {a.arg for a in fn.args.args}
     foods = [c for c in ast.walk(fn) if isinstance(c, ast.Call) and dotted(c.func) == "Food"]
     if len(foods) != 1:
         raise AnalysisError("set_crop_production_minus_greenhouse_area: the production Food(...) construction was not found")
     kc = [k.value for k in foods[0].keywords if k.arg == "kcals"] or (foods[0].args[:1])
     stored = {n.id for n in ast.walk(fn) if isinstance(n, ast.Name) and isinstance(n.ctx, ast.Store)}
-    names = {n.id for n in ast.walk(kc[0]) if isinstance(n, ast.Name) and n.id in stored and n.id not in params} if kc else set()
-    if len(names) != 1:
-        raise AnalysisError(f"production Food(...): the produced series is not one local variable ({sorted(names)})")
-    return names.pop()
+    sliced = {t.value.id for st in ast.walk(fn) if isinstance(st, ast.Assign) for t in st.targets
+              if isinstance(t, ast.Subscript) and isinstance(t.value, ast.Name)}
+    inl = _Inliner(fn, max_depth=0)
+    cands, seen, work = set(), set(), [kc[0]] if kc else []
+    while work:
+        e = work.pop()
+        for n in ast.walk(e):
+            if isinstance(n, ast.Name) and n.id in stored and n.id not in params and n.id not in seen:
+                seen.add(n.id)
+                d = inl.single(n.id)
+                helper_call = isinstance(d, ast.Call) and (dotted(d.func) or "").startswith("self.")
+                if d is None or n.id in sliced or helper_call:
+                    cands.add(n.id)
+                else:
+                    work.append(d)
+    if len(cands) != 1:
+        raise AnalysisError(f"production Food(...): the produced series is not one local variable ({sorted(cands)})")
+    return cands.pop()
+
+
+def production_split(fn):
+    """(name of the produced series, index into fn.body of the first statement after its last top-level assignment)"""
+    name = produced_var(fn)
+    last = None
+    for i, st in enumerate(fn.body):
+        for n in ast.walk(st):
+            if isinstance(n, ast.Name) and n.id == name and isinstance(n.ctx, ast.Store):
+                last = i
+            if isinstance(n, ast.Subscript) and isinstance(n.ctx, ast.Store) and isinstance(n.value, ast.Name) and n.value.id == name:
+                last = i
+    if last is None:
+        raise AnalysisError("production series is never assigned")
+    return name, last + 1
 
 
 def production_form(index, rep, rule):
@@ -441,8 +474,8 @@ def production_form(index, rep, rule):
         it.call_hook = hook
         obj = Obj(cls, {"CROP_WASTE_DISTRIBUTION": Rat.atom(("Wd",)), "OG_FRACTION_FAT": Rat.atom(("ff",)), "OG_FRACTION_PROTEIN": Rat.atom(("fp",))}, "self")
         P_ = [a.arg for a in fn.args.args]
-        env = {"self": obj, P_[1]: Path(("c",)), P_[2]: gfa, produced_var(fn): Rat.atom(("CP",))}
-        first = next((i for i, st in enumerate(fn.body) if any(isinstance(c, ast.Call) and dotted(c.func) == "Food" for c in ast.walk(st))), 1)
+        pname, first = production_split(fn)
+        env = {"self": obj, P_[1]: Path(("c",)), P_[2]: gfa, pname: Rat.atom(("CP",))}
         rest = [st for st in fn.body[first:] if not isinstance(st, ast.Assert)]
         it.exec_block(rest, env)
         return obj
